@@ -4,7 +4,7 @@
    Minneapolis.  Non-fuzzy arithmetics (Fixed / integer / Guarded guard 0), where "lowest" is lowest. *)
 From Coq Require Import ZArith List Bool String Lia.
 From Droop Require Import Model.KernelBase Model.Str Model.Arith Model.Prelude Model.State Model.Prims Model.RulesGregory Model.RulesMeek
-  Proofs.Zlike Proofs.SortLemmas Proofs.Status Proofs.Ties Proofs.Forward Proofs.ForwardOps Proofs.Conserve.
+  Proofs.Zlike Proofs.SortLemmas Proofs.Status Proofs.Ties Proofs.Forward Proofs.ForwardOps Proofs.ForwardMeek Proofs.Conserve.
 Import ListNotations.
 Open Scope Z_scope.
 
@@ -325,4 +325,64 @@ Proof.
   { apply in_concat. exists (c :: rest). split; [exact (nth_error_In _ _ Hnth)|left; reflexivity]. }
   destruct (group_tied_in surp _ _ _ _ c Hin) as [H|[[]|[]]]. unfold by_vote in H. apply py_sorted_in in H. exact H.
 Qed.
+
+(* ================= Meek family: the candidate excluded is within the total surplus of the lowest tally ================= *)
+(* the arithmetic's min() is Python's: the first minimal element under the class's own < *)
+Definition vmin_is_fold : Prop := forall x l, vmin A x l = fold_left (fun m y => if ltv A y m then y else m) l x.
+
+Lemma fold_minv_raw (l : list (T A)) (x : T A) :
+  let m := fold_left (fun m y => if ltv A y m then y else m) l x in
+  R m <= R x /\ (forall y, In y l -> R m <= R y).
+Proof.
+  revert x. induction l as [|y l IH]; intros x; cbn [fold_left]; [split; [lia|intros y []]|].
+  specialize (IH (if ltv A y x then y else x)). cbv zeta in *. destruct IH as (Hle & Hall).
+  rewrite (r_ltv_exact A S ZL Hex) in *. destruct (R y <? R x) eqn:E.
+  - split; [lia|]. intros z [<-|Hz]; [exact Hle|apply Hall; exact Hz].
+  - split; [exact Hle|]. intros z [<-|Hz]; [lia|apply Hall; exact Hz].
+Qed.
+
+Definition vmin_minimal : Prop := forall x l y, In y (x :: l) -> R (vmin A x l) <= R y.
+Lemma vmin_fold_minimal : vmin_is_fold -> vmin_minimal.
+Proof.
+  intros VM x l y Hy. rewrite VM. destruct (fold_minv_raw l x) as (H1 & H2). cbv zeta in *. destruct Hy as [<-|Hy]; [exact H1|exact (H2 _ Hy)].
+Qed.
+
+Theorem meek_defeat_low_within_surplus fmt rd (s : est) : vmin_minimal ->
+  crashed (meek_defeat_low A cfg fmt rd s) = false ->
+  exists c, In c (hopefuls A s) /\
+    (forall c', In c' (hopefuls A s) -> R (cvote c) <= R (cvote c') + Z.max 0 (R (surplus s))) /\
+    stl (cands (meek_defeat_low A cfg fmt rd s)) = stl (upd_cand A (cid c) (fun x => with_st x Defeated (cpend x)) (cands s)).
+Proof.
+  intros VM Hcf. unfold meek_defeat_low in *. unfold low_within_surplus in *.
+  destruct (map (@cvote A) (hopefuls A s)) as [|x l] eqn:Em; [rewrite sticky_set_crash in Hcf; discriminate|].
+  set (lv := vmin A x l) in *.
+  assert (Hlv: forall c', In c' (hopefuls A s) -> R lv <= R (cvote c')).
+  { intros c' Hc'. unfold lv. apply VM. rewrite <- Em. apply in_map. exact Hc'. }
+  set (lows := match filter (fun c => gev A (add A lv (surplus s)) (cvote c)) (hopefuls A s) with
+               | [] => filter (fun c => eqv A (cvote c) lv) (hopefuls A s) | _ => filter (fun c => gev A (add A lv (surplus s)) (cvote c)) (hopefuls A s) end) in *.
+  assert (Hlows: forall c, In c lows -> In c (hopefuls A s) /\ forall c', In c' (hopefuls A s) -> R (cvote c) <= R (cvote c') + Z.max 0 (R (surplus s))).
+  { intros c Hc. unfold lows in Hc. destruct (filter (fun c => gev A (add A lv (surplus s)) (cvote c)) (hopefuls A s)) as [|c0 r] eqn:Ef.
+    - apply filter_In in Hc. destruct Hc as [Hh Hv]. rewrite (r_eqv_exact A S ZL Hex) in Hv. apply Z.eqb_eq in Hv. split; [exact Hh|]. intros c' Hc'. pose proof (Hlv c' Hc'). lia.
+    - rewrite <- Ef in Hc. apply filter_In in Hc. destruct Hc as [Hh Hv]. rewrite (r_gev_exact A S ZL Hex), (r_add A S ZL) in Hv. apply Z.leb_le in Hv.
+      split; [exact Hh|]. intros c' Hc'. pose proof (Hlv c' Hc'). lia. }
+  pose proof (break_tie_cands A cfg fmt lows s) as Ec. pose proof (break_tie_spec A cfg fmt lows s) as Hsp.
+  pose proof (break_tie_none_crashes A cfg fmt lows s) as Hno.
+  destruct (break_tie A cfg fmt lows s) as [s1 [i|]] eqn:Eb; cbn [fst snd] in *.
+  2:{ destruct (Hno s1 eq_refl) as [_ ->]. rewrite sticky_set_crash in Hcf. discriminate. }
+  destruct (Hsp i s1 eq_refl) as [(c & Hcl & Hid) _]. destruct (Hlows c Hcl) as [Hhop Hmin].
+  exists c. split; [exact Hhop|]. split; [exact Hmin|]. cbv zeta in *.
+  assert (Hi1: In i (map (@cid A) (cands s1))).
+  { rewrite Ec, <- Hid. apply in_map. unfold hopefuls in Hhop. apply filter_In in Hhop. exact (proj1 Hhop). }
+  match goal with |- context[defeat A cfg i ?m s1] => set (msg := m) in * end.
+  assert (E2: stl (cands (zero_cand A i (defeat A cfg i msg s1))) = stl (upd_cand A (cid c) (fun x => with_st x Defeated (cpend x)) (cands s))).
+  { unfold zero_cand, upd. cbn [cands set_cands]. rewrite stl_upd_same by (intros c0; repeat split).
+    unfold defeat. destruct (find_cand_in A _ _ Hi1) as [c0 ->]. rewrite (cands_log A cfg). unfold upd. cbn [cands set_cands]. rewrite Ec, Hid. reflexivity. }
+  destruct (crashed (zero_cand A i (defeat A cfg i msg s1))); [exact E2|]. destruct rd; [rewrite (distribute_stl A cfg)|]; exact E2.
+Qed.
 End LE.
+
+
+(* the two arithmetics the Meek family runs on with exact comparisons: their min() is the fold above, by construction *)
+From Droop Require Import Gen.FixedKernels Gen.GuardedKernels.
+Lemma vmin_fold_fixed p d : vmin_is_fold (Fixed p d).
+Proof. intros x l. cbn [Fixed vmin ltv]. unfold FixedKernels.min, py_min_by. cbn [bind unres]. reflexivity. Qed.
